@@ -151,6 +151,70 @@ def run_generic(ctx, lhs, rhs_kind, depth, via, strlen=1, narrow=False,
                                   'got': got, 'want': want})
 
 
+SPECIAL_NAMES = ['system', 'system_scope', 'project_id', 'domain_id',
+                 'user_id', 'is_admin', 'roles', 'service_roles', 'a']
+NAME_VALUES = ['<absent>', None, '', False, 0, 'all', 'x', [], ['x', 'all'],
+               {'all': True}]
+NAME_RHS = ['None', 'all', 'x', '', 'False', '0', 'True', '%(k)s']
+
+
+def run_names(ctx, lhs):
+    """Attribute names the library itself knows (scope and identity keys):
+    a generic check on them still compares the attribute's value -- through
+    Enforcer.enforce, which pre-processes the credentials.  The only
+    documented pre-processing is the legacy mirror: a *truthy* system_scope
+    is also visible as ``system``."""
+    from oslo_policy import policy
+    common.set_ctx(ctx)
+    creds = {}
+    picks = {}
+    others = [n for n in ('system', 'system_scope') if n != lhs]
+    for n in [lhs] + others:
+        # the attribute under test takes every value; the scope keys next
+        # to it: absent / None / two strings
+        menu = list(range(len(NAME_VALUES))) if n == lhs else [0, 1, 5, 6]
+        v = NAME_VALUES[int(ctx.choice('v.' + n, menu))]
+        picks[n] = repr(v)
+        if v != '<absent>':
+            creds[n] = v
+    rhs_text = NAME_RHS[int(ctx.choice('rhs', list(range(len(NAME_RHS)))))]
+    target = {}
+    tk = ctx.choice('tk', ['<absent>', None, 'all', 'x'])
+    if not (isinstance(tk, str) and tk == '<absent>'):
+        target['k'] = tk
+    eff = dict(creds)
+    if eff.get('system_scope'):
+        eff['system'] = eff['system_scope']
+    if rhs_text == '%(k)s' and 'k' not in target:
+        want = False
+    else:
+        rhs = str(target['k']) if rhs_text == '%(k)s' else rhs_text
+        if lhs not in eff:
+            want = False
+        else:
+            v = eff[lhs]
+            if isinstance(v, dict):
+                return          # a path ending in a mapping: printed form of
+                #                 a dict, not this harness's subject
+            if isinstance(v, list):
+                want = any(rhs == str(e) for e in v)
+            else:
+                want = rhs == str(v)
+    text = '%s:%s' % (lhs, rhs_text)
+    enf = common.mk_enforcer(rules=policy.Rules.from_dict({'p': text}))
+    got = bool(enf.enforce('p', target, dict(creds)))
+    ctx.cover('names:evaluated')
+    ctx.observe('check', text)
+    ctx.observe('decision', got)
+    ctx.require(got == want, 'names:decision',
+                detail={'check': text, 'creds': picks, 'target': repr(target),
+                        'got': got, 'want': want})
+
+
+def cubes_names(tier, seed):
+    return [{'lhs': n} for n in SPECIAL_NAMES]
+
+
 def cubes_generic(tier, seed):
     """depth = number of path segments + extra: the value at the end of the
     path may be a list (fan-out) of scalars / a dict of scalars; deeper
@@ -194,12 +258,15 @@ def cubes_generic(tier, seed):
 
 
 HARNESSES = {'generic': {'fn': run_generic, 'cubes': cubes_generic,
-                         'concretize_limit': 3000000}}
+                         'concretize_limit': 3000000},
+            'names': {'fn': run_names, 'cubes': cubes_names}}
 REQUIRED_COVER = ['literal', 'path', 'allowed', 'denied',
-                  'missing-target-key', 'dont-care']
+                  'missing-target-key', 'dont-care', 'names:evaluated']
 
 
 def cube_weight(h, p):
+    if h == 'names':
+        return 500
     w = 8 ** p['lhs'].count('.') * (3 if p['rhs_kind'] != 'literal' else 1)
     if p.get('top') == 'list':
         w *= 50
